@@ -135,7 +135,12 @@ def fields(nf: int, maxf: int, maxsz: int, l1: int, l2: int, l3: int) -> bool:
     nf, maxf, maxsz = CASE["nf"], CASE["maxf"], pick(maxsz, 0, 9)
     ls = [pick(l, 0, 5) for l in (l1, l2, l3)[:nf]]
     lines = [b"a" + bytes([98 + i]) + b":" + b"x" * ls[i] for i in range(nf)]       # len = 3 + l
-    r = mk_req(cfg=CFG(permit_obsolete_folding=bool(CASE.get("fold"))))
+    under = CASE.get("under")
+    if under:
+        # the first field's name contains '_': under header_map=drop it is discarded, under dangerous it is kept; either
+        # way it is a field that was sent, so its size and the field count are limited like any other
+        lines[0] = b"a_" + lines[0][2:]
+    r = mk_req(cfg=CFG(permit_obsolete_folding=bool(CASE.get("fold")), header_map=under or "drop"))
     r.limit_request_fields = maxf
     r.limit_request_field_size = maxsz
     if CASE.get("fold"):
@@ -150,7 +155,7 @@ def fields(nf: int, maxf: int, maxsz: int, l1: int, l2: int, l3: int) -> bool:
     except (InvalidHeader, InvalidHeaderName, ObsoleteFolding):
         return False
     within = nf <= maxf and (maxsz == 0 or all(len(ln) + 2 <= maxsz for ln in lines))
-    return within and len(hs) == nf
+    return within and len(hs) == (nf - 1 if under == "drop" else nf)
 
 
 # ---- 4. bounded buffering on endless input -----------------------------------------------------------------------------------
@@ -273,8 +278,10 @@ OBLIGATIONS = [
        bound="real RequestParser: limit_request_line 20..24, request line limit-2..limit+2 bytes, proxy_protocol on/off (no PROXY "
              "line sent), stream whole or cut at 5 / end of line / between CR and LF"),
     Ob("C12.fields", "fields", cases=[{"nf": a, "maxf": b} for a in (1, 2, 3) for b in (1, 2, 3)] +
-       [{"nf": a, "maxf": b, "fold": True} for a in (1, 2) for b in (1, 2)], timeout=1200,
-       bound="1..3 header fields of length 3..8, limit_request_fields 1..3, limit_request_field_size 0..9"),
+       [{"nf": a, "maxf": b, "fold": True} for a in (1, 2) for b in (1, 2)] +
+       [{"nf": a, "maxf": 2, "under": u} for a in (1, 2, 3) for u in ("drop", "dangerous")], timeout=1200,
+       bound="1..3 header fields of length 3..8, limit_request_fields 1..3, limit_request_field_size 0..9; with obsolete folding; with an "
+             "underscore name under header_map drop / dangerous"),
     Ob("C12.buffer", "buffer_bound", cases=_BUF, timeout=600,
        bound="endless delimiter-free streams of up to 5-8 reads against read_line, the header-block scan, "
              "parse_chunk_size (4096-byte reads vs the 8190 cap) and parse_trailers with small configured bounds"),
